@@ -156,8 +156,11 @@ def boolnone_like(rng: random.Random) -> str:
 def text(rng: random.Random, cls: str | None = None) -> str:
     """a single-line string leaf of a given class (see DESIGN 7 / C01)"""
     classes = ["word", "empty", "multi", "path", "delim", "nested1", "nested2", "backslash", "exotic", "numlike",
-               "boolnone", "placeholderish", "punct", "padded", "linesep", "vocab", "combo"]
+               "boolnone", "placeholderish", "punct", "padded", "linesep", "vocab", "combo", "bracketed"]
     cls = cls or rng.choice(classes)
+    if cls == "bracketed":
+        nums = " ".join(str(rng.randint(-3, 12)) for _ in range(rng.randint(1, 7)))
+        return rng.choice([f"[ {nums} ]", f"[{nums}]", f"limits [ {nums} ]", f"( {nums} )", f"[ {nums.replace(' ', ', ')} ]", f"{word(rng, 4)} [ {nums} ] {word(rng, 4)}", f"[  {nums}  ]"])
     if cls == "combo":
         # two special features in one string (a UNC path with an apostrophe, a quoted segment after a run of backslashes, ...):
         # the writer's quoting branches are chosen by the first feature they test for
